@@ -111,13 +111,15 @@ type lenInv struct {
 
 type linProver struct {
 	p       *Prog
+	hyp     []lin                   // induction hypotheses in force
+	paramNN map[*ssa.Parameter]int // 0 unknown, 1 non-negative at all call sites, 2 not
 	invs    []lenInv
 	facts   map[*ssa.BasicBlock][]lin // constraints L <= 0
 	summary map[*ssa.Function]int     // 0 unknown, 1 holds, 2 fails  (result#0 in [0, len(last []byte param)] when result#1 may be true)
 }
 
 func newLinProver(p *Prog, invs []lenInv) *linProver {
-	return &linProver{p: p, invs: invs, facts: map[*ssa.BasicBlock][]lin{}, summary: map[*ssa.Function]int{}}
+	return &linProver{p: p, paramNN: map[*ssa.Parameter]int{}, invs: invs, facts: map[*ssa.BasicBlock][]lin{}, summary: map[*ssa.Function]int{}}
 }
 
 func isIntType(t types.Type) bool {
@@ -315,6 +317,8 @@ func (lp *linProver) nonNeg(v ssa.Value, d int) bool {
 		}
 	case *ssa.Extract:
 		return isIOCount(x)
+	case *ssa.Parameter:
+		return lp.paramNonNeg(x)
 	case *ssa.Phi:
 		// induction variable: constant >= 0 start, steps phi + c (c >= 0)
 		for _, e := range x.Edges {
@@ -339,6 +343,44 @@ func (lp *linProver) nonNeg(v ssa.Value, d int) bool {
 		return len(x.Edges) > 0
 	}
 	return false
+}
+
+// paramNonNeg: an integer parameter of a repository function is >= 0 if the
+// argument is proved >= 0 at every call site (callers from the call graph).
+func (lp *linProver) paramNonNeg(prm *ssa.Parameter) bool {
+	if s := lp.paramNN[prm]; s != 0 {
+		return s == 1
+	}
+	lp.paramNN[prm] = 2
+	fn := prm.Parent()
+	idx := -1
+	for i, q := range fn.Params {
+		if q == prm {
+			idx = i
+		}
+	}
+	node := lp.p.CallGraph().Nodes[fn]
+	if node == nil || idx < 0 || len(node.In) == 0 || !isIntType(prm.Type()) {
+		return false
+	}
+	for _, e := range node.In {
+		if e.Site == nil {
+			return false
+		}
+		c := e.Site.Common()
+		args := c.Args
+		if c.IsInvoke() {
+			return false
+		}
+		if idx >= len(args) {
+			return false
+		}
+		if !lp.ge0(args[idx], e.Site.Block()) {
+			return false
+		}
+	}
+	lp.paramNN[prm] = 1
+	return true
 }
 
 // factsAt: branch facts at block b as constraints L <= 0, plus contract facts.
@@ -542,6 +584,7 @@ func (lp *linProver) prove(g lin, b *ssa.BasicBlock) bool {
 		return true
 	}
 	facts := append([]lin{}, lp.factsAt(b)...)
+	facts = append(facts, lp.hyp...)
 	facts = append(facts, lp.contractFacts(g, b)...)
 	// second-order contract facts (atoms introduced by first-level facts)
 	n0 := len(facts)
@@ -587,12 +630,23 @@ func (lp *linProver) prove(g lin, b *ssa.BasicBlock) bool {
 				loop = true
 			}
 		}
-		if loop {
+		if loop && len(lp.hyp) > 2 {
 			continue
 		}
 		all := len(phi.Edges) > 0
 		for i, e := range phi.Edges {
 			sub := g.add(lin{ok: true, ts: []lterm{{t.v, t.k}}}, -1).add(lp.linOf(e, 0).scale(t.k), 1)
+			if loop && dependsOn(e, phi, 0) {
+				// inductive step: assume the goal for the phi, prove it for the next value
+				lp.hyp = append(lp.hyp, g)
+				ok := lp.proveNoPhi(sub, phi.Block().Preds[i])
+				lp.hyp = lp.hyp[:len(lp.hyp)-1]
+				if !ok {
+					all = false
+					break
+				}
+				continue
+			}
 			if !lp.proveNoPhi(sub, phi.Block().Preds[i]) {
 				all = false
 				break
@@ -610,6 +664,7 @@ func (lp *linProver) proveNoPhi(g lin, b *ssa.BasicBlock) bool {
 		return true
 	}
 	facts := append([]lin{}, lp.factsAt(b)...)
+	facts = append(facts, lp.hyp...)
 	facts = append(facts, lp.contractFacts(g, b)...)
 	for i := range facts {
 		r1 := g.add(facts[i], -1)
